@@ -35,7 +35,7 @@ def all_returns(fn):
 
 
 def accept_set(ctx, spec, keys, allowed, names=None, targets="nonfalse", init=None, prefer=(), repo=None, what=None,
-               effects=None, callee_accept=None):
+               effects=None, callee_accept=None, exact=False):
     """RANGE accept-set: values of each tracked key with which a target is reachable ⊆ allowed.
 
     Sound direction: the computed set over-approximates the true accept set; a violation is reported
@@ -58,8 +58,16 @@ def accept_set(ctx, spec, keys, allowed, names=None, targets="nonfalse", init=No
         acc = ra.union_at([n.id for n in tnodes], k)
         label = what or k
         if acc.issubset(allowed):
-            out.append(ctx.ok(spec, "accept-set of %s at %d success exit(s) = %s ⊆ %s" % (
-                label, len(tnodes), acc.describe(names), allowed.describe(names)), fn, mod, key=k))
+            if exact and not ra.uninterpreted and not allowed.issubset(acc):
+                # over-rejection: a value the property requires to be accepted never reaches a success exit
+                lost = allowed.minus(acc)
+                w = lost.witness(prefer)
+                out.append(ctx.bad(spec, "%s = %s never reaches a success exit although it is valid; accept-set %s ≠ %s" % (
+                    label, _fmt(w, names), acc.describe(names), allowed.describe(names)), fn, mod,
+                    key="reject:%s" % k, detail={"witness_value": str(w), "accept_set": repr(acc), "allowed": repr(allowed)}))
+                continue
+            out.append(ctx.ok(spec, "accept-set of %s at %d success exit(s) = %s %s %s" % (
+                label, len(tnodes), acc.describe(names), "=" if acc == allowed else "⊆", allowed.describe(names)), fn, mod, key=k))
             continue
         un = [u for u in ra.uninterpreted]
         if un:
